@@ -273,14 +273,15 @@ inductive Outcome
 
 def init (input : List Int) : Cfg := ⟨[0], none, 0, input, 0, 0⟩
 
+/-- the loop; the events are accumulated in REVERSE order (newest first) -/
 def runFuel (T : Tables) (fail : Nat → Bool) : Nat → Cfg → List Event → Outcome × List Event
   | 0, _, evs => (.outOfFuel, evs)
   | f + 1, c, evs =>
     match step T fail c with
     | .panic => (.panic, evs)
-    | .done 0 ev _ _ => (.accept, evs ++ ev)
-    | .done _ ev (some i) _ => (.syntaxError i, evs ++ ev)
-    | .done _ ev none _ => (.actionError, evs ++ ev)
-    | .cont c' ev => runFuel T fail f c' (evs ++ ev)
+    | .done 0 ev _ _ => (.accept, ev.reverse ++ evs)
+    | .done _ ev (some i) _ => (.syntaxError i, ev.reverse ++ evs)
+    | .done _ ev none _ => (.actionError, ev.reverse ++ evs)
+    | .cont c' ev => runFuel T fail f c' (ev.reverse ++ evs)
 
 end Martian.LexerLR
